@@ -105,7 +105,11 @@ static size_t alloc_run(long hno, int maxlen, int record) {
       case 2: for (k = 0; k < np; k++) if (pool[k].type == T_CR) { Crystal_Struct *u = pool[k].p; static const int hz[] = { -5, 0, 1, 14, 92, 98, 99, 110, 119, 120, 121, 500 };
                 if (u->n_atom > 0 && xv_below(&r, 2)) u->atom[xv_below(&r, u->n_atom)].Zatom = hz[xv_below(&r, 12)];      /* hostile atom list in a user-owned copy */
                 if (xv_below(&r, 12) == 0) u->n_atom = 0;                                                               /* ... or an empty one (the atom block stays allocated) */
-                al_sink += Crystal_F_H_StructureFactor_Partial(u, 1 + 30 * xv_unit(&r), (int)xv_below(&r, 5) - 2, (int)xv_below(&r, 5) - 2, (int)xv_below(&r, 5) - 2, xv_below(&r, 5) ? 1.0 : -1.0, 1.0, (int)xv_below(&r, 4), (int)xv_below(&r, 4), (int)xv_below(&r, 4), &e).re; break; } break;
+                if (u->n_atom > 1 && xv_below(&r, 3) == 0) { int j = (int)xv_below(&r, u->n_atom); u->atom[j].fraction = 0.0; u->atom[j].Zatom = 71 + j; }   /* a vacant site of an element that occurs nowhere else in the cell */
+                { xrlComplex z; xv_poison_stack();      /* whatever the library leaves unwritten on its stack now reads as NaN */
+                  z = Crystal_F_H_StructureFactor_Partial(u, 1 + 30 * xv_unit(&r), (int)xv_below(&r, 5) - 2, (int)xv_below(&r, 5) - 2, (int)xv_below(&r, 5) - 2, xv_below(&r, 5) ? 1.0 : -1.0, 1.0, (int)xv_below(&r, 4), (int)xv_below(&r, 4), (int)xv_below(&r, 4), &e);
+                  if (!e && !(isfinite(z.re) && isfinite(z.im))) hm_violation("c04:structure-factor-not-finite-without-error", "Crystal_F_H_StructureFactor_Partial returned a non-finite value without an error (stack poisoned with 0xFF before the call: a read of a never-written local)");
+                  al_sink += z.re; } break; } break;
       case 3: { Crystal_Array *a = Crystal_ArrayInit((int)xv_below(&r, 8) - 1, &e); PUT(T_ARR, a); break; }
       default: for (k = 0; k < np; k++) if (pool[k].type == T_ARR) { int j; for (j = 0; j < np; j++) if (pool[j].type == T_CR && xv_below(&r, 2)) { Crystal_Struct *u = pool[j].p; xrl_error *e2 = NULL; int z, okz = 1; for (z = 0; z < u->n_atom; z++) if (u->atom[z].Zatom < 1 || u->atom[z].Zatom > 98) okz = 0; (void)okz; Crystal_AddCrystal(u, pool[k].p, &e2); if (e2) { xrl_error_free(e2); e2 = NULL; } c = Crystal_GetCrystal(u->name, pool[k].p, &e2); if (e2) xrl_error_free(e2); PUT(T_CR, c); break; } break; } break;
       }
